@@ -34,3 +34,21 @@ Theorem C16_default_namespace : forall st st' p u root,
   fst (load st' None {| pr_root := root; pr_nsmap := [(None, u)] |}).
 Proof. exact default_namespace_same. Qed.
 Print Assumptions C16_default_namespace.
+
+(* which namespace the XTCE elements are in is irrelevant, including none: re-label every tag (elements of namespace U go to
+   U', all others to a namespace different from U': [rnx U U']) and read with U' — the same document comes out.
+   [U], [U'] are what the two (prefix, namespace map) pairs resolve to.  Proved reader by reader up to read_doc (Proofs/NsP.v). *)
+From SPP Require Import Proofs.NsP.
+Theorem C16_namespace_relabelling : forall U U' st st' prefix prefix' root nsmap nsmap',
+  resolve {| st_prefix := prefix; st_nsmap := nsmap |} = Ok U ->
+  resolve {| st_prefix := prefix'; st_nsmap := nsmap' |} = Ok U' ->
+  fst (load st' prefix' {| pr_root := rnx U U' root; pr_nsmap := nsmap' |}) = fst (load st prefix {| pr_root := root; pr_nsmap := nsmap |}).
+Proof. exact load_relabelled. Qed.
+Print Assumptions C16_namespace_relabelling.
+
+(* in particular the document written with no namespace at all loads like the one written with a prefix *)
+Theorem C16_no_namespace : forall st st' p u root,
+  fst (load st' None {| pr_root := rnx (Some u) None root; pr_nsmap := [] |})
+  = fst (load st (Some p) {| pr_root := root; pr_nsmap := [(Some p, u)] |}).
+Proof. exact no_namespace_spelling. Qed.
+Print Assumptions C16_no_namespace.
